@@ -484,6 +484,7 @@ class Machine:
         self._index_defs()
         from . import lib_std
         lib_std.install(self)
+        lib_std.install2(self)
 
     def reset(self):
         """Forget all per-path state (the static indexes and summaries are kept)."""
